@@ -128,6 +128,25 @@ def corpus_files(kind='real'):
     return sorted(glob.glob(os.path.join(d, '**', '*.py'), recursive=True))
 
 
+def extended_corpus(max_bytes=90000):
+    """more real code for thorough tiers: pure-Python packages of the installed CPython 3.12 standard library (part of the image, not of /verif;
+    an absent file is simply not used). The pinned corpus under corpus/ stays the reference set."""
+    lib = stdlib_dir('3.12.1')
+    out = []
+    for pkg in ('json', 'email', 'http', 'logging', 'unittest', 'importlib', 'collections', 'asyncio', 'concurrent', 'xml', 'urllib', 'html', 'sqlite3',
+                'wsgiref', 'zoneinfo', 'tomllib', 're', 'multiprocessing', 'dbm', 'curses', 'venv', 'ensurepip', 'pydoc_data', 'xmlrpc', 'zipfile', 'sysconfig'):
+        d = os.path.join(lib, pkg)
+        for f in sorted(glob.glob(os.path.join(d, '**', '*.py'), recursive=True)):
+            if os.sep + 'test' in f or os.path.getsize(f) > max_bytes or os.path.getsize(f) == 0:
+                continue
+            out.append(f)
+    pinned = set(os.path.basename(f) for f in corpus_files('real'))
+    for f in sorted(glob.glob(os.path.join(lib, '*.py'))):
+        if os.path.basename(f) not in pinned and 0 < os.path.getsize(f) <= max_bytes:
+            out.append(f)
+    return out
+
+
 def read_text(path):
     with open(path, 'rb') as f:
         return f.read()
